@@ -33,6 +33,17 @@ package mpbgv
 //@   requires len(rfp.tmpPt.Coeffs) == rfp.s2e.params.Parameters.ringQ.level + 1
 //@   ensures len(result.tmpPt.Coeffs) == result.s2e.params.Parameters.ringQ.level + 1
 
+// aggregation of refresh shares (property C16, "any aggregation order"): both parts are added and the
+// aggregate carries the metadata of the shares, whatever the accumulator held (finding F37: a freshly
+// allocated accumulator kept its zero metadata and Transform then refused the aggregate)
+//@ afunc MaskedTransformProtocol.AggregateShares
+//@   property C16
+//@   requires ((isntt(share1.EncToShareShare.Value) && isntt(share2.EncToShareShare.Value)) || (iscoef(share1.EncToShareShare.Value) && iscoef(share2.EncToShareShare.Value))) && mexp(share1.EncToShareShare.Value) == mexp(share2.EncToShareShare.Value)
+//@   requires ((isntt(share1.ShareToEncShare.Value) && isntt(share2.ShareToEncShare.Value)) || (iscoef(share1.ShareToEncShare.Value) && iscoef(share2.ShareToEncShare.Value))) && mexp(share1.ShareToEncShare.Value) == mexp(share2.ShareToEncShare.Value)
+//@   requires len(share1.EncToShareShare.Value.Coeffs) >= 1 && len(share1.ShareToEncShare.Value.Coeffs) >= 1
+//@   ensures implies(isnil(err), val(shareOut.EncToShareShare.Value) == old(val(share1.EncToShareShare.Value)) + old(val(share2.EncToShareShare.Value)) && val(shareOut.ShareToEncShare.Value) == old(val(share1.ShareToEncShare.Value)) + old(val(share2.ShareToEncShare.Value)))
+//@   ensures implies(isnil(err), iff(shareOut.MetaData.CiphertextMetaData.IsNTT, share1.MetaData.CiphertextMetaData.IsNTT) && iff(shareOut.MetaData.PlaintextMetaData.IsBatched, share1.MetaData.PlaintextMetaData.IsBatched))
+
 //@ copy RefreshProtocol.ShallowCopy
 //@   copied MaskedTransformProtocol
 
